@@ -4,6 +4,7 @@
 -/
 import GormModel.Model.Pipeline
 import GormModel.Lemmas.DryRun
+import GormModel.Lemmas.DryRunRecv
 import GormModel.Gen.CallSites
 import GormModel.Gen.Pipelines
 import GormModel.Gen.Sessions
@@ -112,10 +113,13 @@ theorem C19_tosql_silent (st : RunSt) (env : String → Bool)
         · simp [hk, hk2]
   · rfl
 
-/-- ToSQL's session literal really is DryRun + SkipDefaultTransaction -/
+/-- ToSQL's session literal really is DryRun + SkipDefaultTransaction — and nothing else: there is exactly one
+    `Session(&Session{…})` call in `DB.ToSQL`, made on the receiver `db`, and its literal sets exactly these two fields
+    (an added `NewDB` / `Initialized` / `PrepareStmt` … changes which statement the callback works with) -/
 theorem C19_tosql_session :
-    ∃ u ∈ sessionUses, u.fn = "DB.ToSQL" ∧ ("DryRun", "true") ∈ u.fields ∧
-      ("SkipDefaultTransaction", "true") ∈ u.fields := by
+    sessionUses.filter (fun u => u.fn = "DB.ToSQL") =
+      [{ file := "gorm.go", fn := "DB.ToSQL", recv := "db",
+         fields := [("DryRun", "true"), ("SkipDefaultTransaction", "true")] }] := by
   decide
 
 /-- DryRun is never switched off again by the operations in scope: every assignment to a `.DryRun`
@@ -375,5 +379,112 @@ theorem C19_exposed_is_built_partial (b : Bool) (f : FinSpec) (p : String × Lis
   unfold exposed
   simp only [hb, Bool.false_eq_true, if_false, hp]
   exact (C19_model_dry_equals_real b st env fuel hd p (List.mem_of_find?_eq_some hp)).1
+
+
+/-! ## Round 4: the RECEIVER of ToSQL / Session{DryRun}, and the WIRE of the real run
+    (Model/DryRunRecv.lean over `Gen.toSQLSession`, `Gen.toSQLStmts`, `Gen.sessionBody`, `Gen.getInstanceBody`,
+     `Gen.cloneLiteral`, `Gen.cloneLater`, `Gen.prepFns`, `Gen.sendSites`) -/
+
+/-- `DB.ToSQL` is `tx := queryFn(db.Session(&Session{DryRun: true, SkipDefaultTransaction: true}))`, `stmt := tx.Statement`,
+    `return db.Dialector.Explain(stmt.SQL.String(), stmt.Vars...)`: the literal has exactly these fields and the callback
+    gets the session of the RECEIVER with nothing chained in between -/
+theorem C19_tosql_literal_exact :
+    toSQLSession = [[("DryRun", "true"), ("SkipDefaultTransaction", "true")]] ∧ toSQLShapeOK = true ∧
+    toSQLFlags = some [.dryRun, .skipDefaultTransaction] := by
+  decide
+
+/-- statement.go `clone()` carries every piece of chain state over (Model, Table, TableExpr, Unscoped, Selects, Omits,
+    Distinct, Clauses, Joins, Preloads, scopes, Settings, attrs, assigns …) and the fresh statement of `getInstance()` of a
+    `clone == 1` handle carries none -/
+theorem C19_clone_keeps_chain_state : cloneKeepsState = true ∧ freshIsEmpty = true := by
+  decide
+
+/-- `getInstance()` over statement contents, read from its regenerated body: a chain handle (clone 0) works on the
+    receiver's own statement, a `clone == 1` handle on a fresh one, any other on a copy with the receiver's contents -/
+theorem C19_getInstance_contents (clone : Nat) :
+    giStmt clone = if (clone == 1) = true then .empty else .recv := by
+  have key : ∀ pos one : Bool, (one = true → pos = true) →
+      (let r := giStmtRun pos one
+       if r.bad.isEmpty && r.returned then r.result.getD .lost else .lost) =
+      (if one = true then StSym.empty else StSym.recv) := by decide
+  have hc : ((clone == 1) = true → decide (clone > 0) = true) := by
+    intro h; have : clone = 1 := by simpa using h
+    subst this; decide
+  exact key (decide (clone > 0)) (clone == 1) hc
+
+/-- what `Session()` must achieve for the statement, for one flag valuation -/
+def SessKeepsRecv (r : SessStmt) : Prop := r.ok = true ∧ r.cur = .recv ∧ r.next = .recv
+
+instance (r : SessStmt) : Decidable (SessKeepsRecv r) := by
+  unfold SessKeepsRecv; exact inferInstance
+
+/-- MAIN (receiver state): for EVERY combination of Session flags with `NewDB` off — DryRun, SkipDefaultTransaction,
+    PrepareStmt, SkipHooks, Context, Initialized, … — the handle `Session()` returns, and the statement its first chain
+    call / finisher works with, carry the RECEIVER's chain state (conditions, table, model, unscoped, scopes, clauses).
+    Read from the regenerated bodies of `Session()` / `getInstance()` / `clone()`. -/
+theorem C19_session_keeps_receiver_state (fl : SessFlags) (h : fl .newDB = false) :
+    SessKeepsRecv (runSessStmt sessionProg fl) := by
+  apply forall_flags_newDB_off sessionProg SessKeepsRecv _ fl h
+  set_option maxRecDepth 20000 in decide
+
+/-- `Session()` switches DryRun / SkipDefaultTransaction on under the literal's flag and nowhere writes them otherwise -/
+theorem C19_session_sets_flags :
+    sessionSetsConfig "DryRun" = true ∧ sessionSetsConfig "SkipDefaultTransaction" = true ∧
+    sessionOnlySetsConfig "DryRun" = true ∧ sessionOnlySetsConfig "SkipDefaultTransaction" = true := by
+  decide
+
+/-- a DryRun session derived from ANY receiver (`recv.Session(&Session{DryRun: true, …})`, NewDB off) is a DryRun handle
+    whose first operation starts from the receiver's chain state -/
+theorem C19_dryrun_session_on_receiver (fl : SessFlags) (hd : fl .dryRun = true) (hn : fl .newDB = false)
+    (recv : ChainState) :
+    (sessionHandle fl).dryRun = true ∧ (sessionHandle fl).ok = true ∧
+    (sessionHandle fl).stmt.resolve recv = some recv := by
+  obtain ⟨h1, _, h3⟩ := C19_session_keeps_receiver_state fl hn
+  refine ⟨?_, h1, ?_⟩
+  · simp [sessionHandle, hd, C19_session_sets_flags.1]
+  · simp [sessionHandle, h3, StSym.resolve]
+
+/-- MAIN (ToSQL): the handle `DB.ToSQL` passes to its callback is in DryRun + SkipDefaultTransaction mode, is a
+    `clone == 2` handle (every chain started inside the callback gets its own statement copy) and its first operation
+    starts from the chain state of the handle ToSQL was CALLED ON -/
+theorem C19_tosql_callback_handle :
+    toSQLHandle = { stmt := .recv, clone := 2, dryRun := true, skipDefaultTx := true, ok := true } := by
+  decide
+
+theorem C19_tosql_shows_receiver_chain (recv : ChainState) :
+    toSQLHandle.stmt.resolve recv = some recv := by
+  rw [C19_tosql_callback_handle]; rfl
+
+/-- hence whatever builds the statement from the chain state (the build part does not read DryRun:
+    `C19_model_dry_equals_real`) builds, inside ToSQL's callback, from the same state as the real run of the same
+    finisher on the receiver -/
+theorem C19_tosql_builds_from_receiver {α : Type} (build : Option ChainState → α) (recv : ChainState) :
+    build (toSQLHandle.stmt.resolve recv) = build ((giStmt 0).resolve recv) := by
+  rw [C19_tosql_shows_receiver_chain, C19_getInstance_contents]; rfl
+
+/-- non-vacuity / sensitivity: with `NewDB` added to the literal the callback handle forgets the receiver's chain
+    (conditions, table, model): the statement shown would be that of an EMPTY chain; with `Initialized` added the callback
+    handle is a clone-0 chain handle (operations inside the callback share one statement) -/
+theorem C19_newdb_session_forgets_receiver :
+    (sessionHandle (SessFlags.ofList [.dryRun, .skipDefaultTransaction, .newDB])).stmt.resolve
+        { items := [1, 2], unscoped := true } = some { items := [], unscoped := false } ∧
+    (sessionHandle (SessFlags.ofList [.dryRun, .skipDefaultTransaction, .initialized])).clone = 0 := by
+  decide
+
+/-- the prepared-statement pool and the executors hand text and values on untouched (regenerated `Gen.prepFns`,
+    `Gen.sendSites`): `prepare` passes its `query` parameter to `PrepareContext` and keys the cache with it, no wrapper
+    writes a parameter, each wrapper passes `query` to `prepare` and `args...` to the prepared statement, and every
+    executor sends `Statement.SQL.String()` / `Statement.Vars...` -/
+theorem C19_prepare_passes_text :
+    prepareKeepsText = true ∧ prepDBKeeps = true ∧ prepTXKeeps = true ∧ executorsSendStatement = true := by
+  decide
+
+/-- MAIN (wire): whichever pool the real run uses — plain, PreparedStmtDB, PreparedStmtTX — the driver is handed exactly
+    the text and the values of the built statement (in PrepareStmt mode: asked to PREPARE exactly that text, and the
+    prepared statement is run with exactly those values) — i.e. what the dry run keeps in Statement.SQL / Vars (`C19_kept`) -/
+theorem C19_wire_exact {V : Type} (k : PoolKind) (sql : String) (vars : List V) :
+    wire k sql vars = some { prepared := if k = .plain then none else some sql, text := sql, args := vars } := by
+  obtain ⟨_, h2, h3, h4⟩ := C19_prepare_passes_text
+  cases k <;> simp [wire, h2, h3, h4]
 
 end Gorm
